@@ -102,6 +102,8 @@ func LemmaCloseFrom(s string, f, i int) {
 }
 
 //@ contract Operator.findGroupBodyEnd
+//@   rtc recv NewAssembler(processors.NewContext(context.New("/nonexistent-root", "toolchain.yaml")))
+//@   rtc import "github.com/coreruleset/crs-toolchain/v2/context"
 //@   tags C19 C02
 //@   opt termination C19
 //@   results end alt
@@ -127,6 +129,8 @@ func SpecRemoveGroup(s string, gs, bs, e int, keep bool) string {
 }
 
 //@ contract Operator.removeGroup
+//@   rtc recv NewAssembler(processors.NewContext(context.New("/nonexistent-root", "toolchain.yaml")))
+//@   rtc import "github.com/coreruleset/crs-toolchain/v2/context"
 //@   tags C19 C02
 //@   results r
 //@   requires 0 <= groupStart && groupStart <= bodyStart && bodyStart <= len(input)
@@ -137,6 +141,8 @@ func SpecRemoveGroup(s string, gs, bs, e int, keep bool) string {
 //@   ensures[C02] printable: implies(SpecPrintable(input), SpecPrintable(r))
 
 //@ contract Operator.removeOutermostNonCapturingGroup
+//@   rtc recv NewAssembler(processors.NewContext(context.New("/nonexistent-root", "toolchain.yaml")))
+//@   rtc import "github.com/coreruleset/crs-toolchain/v2/context"
 //@   tags C19 C02
 //@   results r
 //@   requires closed: implies(len(input) >= 4 && input[0] == '(' && input[1] == '?' && input[2] == ':', SpecCloseIdx(input, 3) >= 0)
@@ -224,6 +230,8 @@ func LemmaEscQPrintable(s string, k int) {
 }
 
 //@ contract Operator.escapeDoublequotes
+//@   rtc recv NewAssembler(processors.NewContext(context.New("/nonexistent-root", "toolchain.yaml")))
+//@   rtc import "github.com/coreruleset/crs-toolchain/v2/context"
 //@   tags C02 C19
 //@   results r
 //@   ensures functional: r == SpecEscQ(input, len(input))
@@ -245,6 +253,8 @@ func reSpan(re *regexp.Regexp, text string) bool {
 // firstUnescapedMatch: either nothing, or the span of a match of the pattern whose first
 // byte is not escaped. Terminates: the search position strictly increases.
 //@ contract firstUnescapedMatch
+//@   rtc arg matcher = regexp.MustCompile(`\(\?[-misU]+[:)]`)
+//@   rtc tokens "(?i:" "(?s)" ")" "\\" "(" "a"
 //@   tags C19 C02
 //@   opt termination C19
 //@   results r
@@ -257,11 +267,22 @@ func reSpan(re *regexp.Regexp, text string) bool {
 // of closed flag groups. Uninterpreted: it only carries the two assumed lemmas below.
 func OpaquePrinterShaped(s string) bool { return true }
 
+// SpecFlagLetter / SpecFlagSpan: s[a:b] is "(?", one or more of the letters -misU, and the
+// byte `last` (':' for a flag group opener, ')' for a flag toggle) - what the two local
+// patterns of dontUseFlagsForMetaCharacters match (linked to them by the mechanical facts
+// about a full match of `\(\?[-misU]+:` / `\(\?[-misU]+\)`).
+func SpecFlagLetter(b byte) bool { return b == '-' || b == 'm' || b == 'i' || b == 's' || b == 'U' }
+
+func SpecFlagSpan(s string, a, b int, last byte) bool {
+	return 0 <= a && a+4 <= b && b <= len(s) && s[a] == '(' && s[a+1] == '?' && s[b-1] == last &&
+		forall(a+2, b-1, func(i int) bool { return SpecFlagLetter(s[i]) })
+}
+
 // ASSUMED (printer contract): in such a text the group opened by an unescaped "(?flags:" is
 // closed, and removing that group (header and closing parenthesis) keeps the shape.
 //@ lemma LemmaFlagGroupClosed
 //@   opt assumed regexp/syntax printer output: every unescaped flag-group opener is closed, and removing a closed flag group keeps that property
-//@   requires 0 <= gs && gs <= bs && bs <= len(s) && OpaquePrinterShaped(s) && !utils.SpecEscaped(s, gs)
+//@   requires OpaquePrinterShaped(s) && SpecFlagSpan(s, gs, bs, ':') && !utils.SpecEscaped(s, gs)
 //@   ensures SpecCloseIdx(s, bs) >= 0
 //@   ensures OpaquePrinterShaped(SpecRemoveGroup(s, gs, bs, SpecCloseIdx(s, bs), SpecBar(s, bs, SpecCloseIdx(s, bs)+1)))
 
@@ -270,7 +291,7 @@ func LemmaFlagGroupClosed(s string, gs, bs int) {}
 // ASSUMED (printer contract): removing an unescaped flag toggle "(?flags)" keeps the shape.
 //@ lemma LemmaToggleRemoval
 //@   opt assumed regexp/syntax printer output: removing an unescaped (?flags) toggle keeps the property that unescaped flag-group openers are closed
-//@   requires 0 <= a && a <= b && b <= len(s) && OpaquePrinterShaped(s) && !utils.SpecEscaped(s, a)
+//@   requires OpaquePrinterShaped(s) && SpecFlagSpan(s, a, b, ')') && !utils.SpecEscaped(s, a)
 //@   ensures OpaquePrinterShaped(s[:a] + s[b:])
 
 func LemmaToggleRemoval(s string, a, b int) {}
@@ -299,7 +320,7 @@ func LemmaToggleRemoval(s string, a, b int) {}
 // quantified form of LemmaToggleRemoval (the removed span is only known inside the loop body)
 //@ lemma LemmaToggleRemovalAll
 //@   opt assumed quantified form of LemmaToggleRemoval
-//@   ensures implies(OpaquePrinterShaped(s), forall(0, len(s)+1, func(a int) bool { return forall(a, len(s)+1, func(b int) bool { return implies(!utils.SpecEscaped(s, a), OpaquePrinterShaped(s[:a]+s[b:])) }) }))
+//@   ensures implies(OpaquePrinterShaped(s), forall(0, len(s)+1, func(a int) bool { return forall(a, len(s)+1, func(b int) bool { return implies(!utils.SpecEscaped(s, a) && SpecFlagSpan(s, a, b, ')'), OpaquePrinterShaped(s[:a]+s[b:])) }) }))
 
 func LemmaToggleRemovalAll(s string) {}
 
@@ -310,18 +331,24 @@ func LemmaToggleRemovalAll(s string) {}
 func SpecPrintable(s string) bool { return utils.SpecPrintableU(s) }
 
 //@ contract Operator.useHexEscapes
+//@   rtc recv NewAssembler(processors.NewContext(context.New("/nonexistent-root", "toolchain.yaml")))
+//@   rtc import "github.com/coreruleset/crs-toolchain/v2/context"
 //@   tags C02 C19
 //@   results r
 //@   ensures printable: SpecPrintable(r)
 //@   loop 0 invariant SpecPrintable(bufContent(sb)) && 0 <= rangeIndex0 && rangeIndex0 <= len(input)
 
 //@ contract Operator.useHexBackslashes
+//@   rtc recv NewAssembler(processors.NewContext(context.New("/nonexistent-root", "toolchain.yaml")))
+//@   rtc import "github.com/coreruleset/crs-toolchain/v2/context"
 //@   tags C02
 //@   results r
 //@   ensures functional: r == utils.OpaqueReplaceAll(input, "\\\\", "\\x5c")
 //@   ensures printable: implies(SpecPrintable(input), SpecPrintable(r))
 
 //@ contract Operator.includeVerticalTabInSpaceClass
+//@   rtc recv NewAssembler(processors.NewContext(context.New("/nonexistent-root", "toolchain.yaml")))
+//@   rtc import "github.com/coreruleset/crs-toolchain/v2/context"
 //@   tags C02
 //@   results r
 //@   ensures functional: r == utils.OpaqueReplaceAll(input, "\\t\\n\\f\\r ", "\\s\\x0b")
@@ -424,6 +451,8 @@ func OpaqueParses(s string) bool { _, err := rassemble.Join([]string{s}); return
 //@   modifies processorStack, processor
 
 //@ contract Operator.runFinalPass
+//@   rtc recv NewAssembler(processors.NewContext(context.New("/nonexistent-root", "toolchain.yaml")))
+//@   rtc import "github.com/coreruleset/crs-toolchain/v2/context"
 //@   tags C19 C16
 //@   opt termination C19
 //@   results r err
